@@ -187,12 +187,72 @@ def run(tier, seed, only=None):
             check_swv((2, x0), [w0], [s0], None if d0 is None else [d0])
         for x0, x1, w0, w1, s0, s1, d in itertools.product([2, 4, 5], [3, 4], [1, 2], [1, 3], [1, 2], [1, 2], [None, (1, 1), (2, 1), (1, 2)]):
             check_swv((x0, x1), [w0, w1], [s0, s1], None if d is None else list(d))
-        # non-contiguous input
-        a = rng.normal(size=(4, 5)).T
-        v = sliding_window_view(a, (2, 2), 1)
-        b.case(dict(layer="sliding_window_view", noncontiguous=True))
-        if not np.array_equal(v[1, 2], a[1:3, 2:4]) or v.flags.writeable:
-            b.fail("C16.layers.swv.noncontiguous", dict(shape=[5, 4], layout="transposed"), "wrong window content")
+        # non-contiguous and oddly-strided inputs: transposes, strided / offset slices on leading and trailing axes, inserted
+        # length-1 axes (stride 0), transposed length-1 axes (large stride), negative strides, broadcast (stride-0) axes
+        def layouts(shape):
+            big = rng.normal(size=tuple(2 * e + 1 for e in shape))
+            yield "slice-every-2nd", big[tuple(slice(0, 2 * e, 2) for e in shape)]
+            yield "offset-slice", big[tuple(slice(1, 1 + e) for e in shape)]
+            yield "lead-every-2nd", big[(slice(0, 2 * shape[0], 2),) + tuple(slice(0, e) for e in shape[1:])]
+            yield "reversed", rng.normal(size=shape)[tuple(slice(None, None, -1) for _ in shape)]
+            yield "fortran", np.asfortranarray(rng.normal(size=shape))
+            if len(shape) >= 2:
+                yield "transposed", rng.normal(size=shape[::-1]).T
+                yield "swap-lead", np.swapaxes(rng.normal(size=(shape[1], shape[0]) + tuple(shape[2:])), 0, 1)
+            yield "broadcast-lead", np.broadcast_to(rng.normal(size=shape[1:]), shape)
+
+        def check_swv_arr(tag, arr, W, S, D):
+            k = len(W)
+            lead = arr.ndim - k
+            shape = arr.shape
+            desc = dict(layer="sliding_window_view", layout=tag, arr=list(shape), strides=list(arr.strides), window=list(W), step=list(S), dilation=list(D))
+            if not all(W[i] * D[i] <= shape[lead + i] for i in range(k)):
+                return
+            b.count("sliding_window_view.layout")
+            ref = np.array(arr, copy=True, order="C")
+            v = sliding_window_view(arr, tuple(W), tuple(S), tuple(D))
+            exp_shape = tuple((shape[lead + i] - ((W[i] - 1) * D[i] + 1)) // S[i] + 1 for i in range(k)) + tuple(shape[:lead]) + tuple(W)
+            ok = v.shape == exp_shape and not v.flags.writeable
+            if ok:
+                for g in itertools.product(*[range(e) for e in exp_shape[:k]]):
+                    for w_ in itertools.product(*[range(e) for e in W]):
+                        for n_ in itertools.product(*[range(e) for e in shape[:lead]]):
+                            idx = tuple(g[i] * S[i] + w_[i] * D[i] for i in range(k))
+                            if v[g + n_ + w_] != ref[n_ + idx]:
+                                ok = False
+            if not ok:
+                b.fail("C16.layers.swv.layout", desc, "view differs from out[g,n,w]=arr[n,g*step+w*dilation] / is writeable")
+            b.case(desc)
+
+        for shape in [(4,), (3, 4), (2, 3, 4), (2, 2, 3, 3)]:
+            for tag, arr in layouts(shape):
+                for k in range(1, min(3, len(shape)) + 1):
+                    for W, S, D in [([1] * k, [1] * k, [1] * k), ([2] * k, [1] * k, [1] * k), ([2] * k, [2] * k, [1] * k), ([2] * k, [1] * k, [2] * k)]:
+                        check_swv_arr(tag, arr, W, S, D)
+        # length-1 axes whose stride is not the canonical one although NumPy flags the array C-contiguous
+        for n_ in (1, 2, 3):
+            base = rng.normal(size=(n_,))
+            for tag, arr in [("newaxis-last", base[:, None]), ("row-transposed", base.reshape(1, n_).T), ("newaxis-both", base[None, :, None]), ("newaxis-first", base[None, :])]:
+                for k in range(1, arr.ndim + 1):
+                    W = [1] * k
+                    check_swv_arr(tag, arr, W, [1] * k, [1] * k)
+                    if arr.shape[-k] >= 2 or (k > 1 and arr.shape[-k] >= 2):
+                        W2 = [min(2, e) for e in arr.shape[-k:]]
+                        check_swv_arr(tag, arr, W2, [1] * k, [1] * k)
+        # the layers on top of the window helper, on the same kinds of input
+        for tag, x in list(layouts((2, 2, 4))) + [("newaxis-last", rng.normal(size=(2, 3))[:, :, None]), ("row-transposed", np.swapaxes(rng.normal(size=(2, 1, 3)), 1, 2))]:
+            desc = dict(layer="max_pool/conv_nd", layout=tag, x=list(x.shape), strides=list(x.strides))
+            ref = np.array(x, copy=True, order="C")
+            pool = (2,) if x.shape[-1] >= 2 else (1,)
+            b.count("layers.layout")
+            out = nn.max_pool(mg.tensor(x), pool, 1).data
+            if not np.array_equal(out, pool_naive(ref, list(pool), [1])):
+                b.fail("C16.layers.max_pool.layout", desc, "differs from the naive formula")
+            w = rng.normal(size=(2, x.shape[1], pool[0]))
+            out = nn.conv_nd(mg.tensor(x), w, stride=1).data
+            if not np.allclose(out, conv_naive(ref, w, [1], [0], [1])):
+                b.fail("C16.layers.conv.layout", desc, "differs from the naive formula")
+            b.case(desc)
     # ---- batchnorm -----------------------------------------------------------------------------
     if not only or "batchnorm" in only:
         for shape in [(2, 1), (3, 2), (4, 3), (2, 2, 3), (3, 1, 2, 2), (2, 3, 2, 1, 2)]:
